@@ -20,19 +20,25 @@ ID = "C11"
 LEVEL = "exploration"
 RULE = (
     "every universe member (all parent choices per node per cell; all sample-flag subsets where the "
-    "operation depends on flags) decorated with metadata on all tables, a site at every half-grid "
-    "position, rotating mutation patterns with parents, known/unknown/boundary mutation times and "
-    "migration layouts, x [iv] every subset of half-cells kept, as keep_intervals and as "
-    "delete_intervals of the complement, merged and unmerged interval lists, simplify=False; "
-    "[ivs] the same subsets with simplify=True against simplify() of the unsimplified result; "
-    "[trim] ltrim/rtrim/trim x 6 migration layouts x TableCollection/TreeSequence; [ds] every "
-    "site-id list (all sequences up to length 3 incl. duplicates and any order, plus every subset); "
+    "operation depends on flags, else one flag vector) decorated with metadata and schemas on all "
+    "tables, a site at every half-grid position, rotating mutation patterns with mutation parents, "
+    "unknown / known / boundary (== node time) mutation times and migration layouts, x "
+    "[iv] every subset of half-cells kept, as keep_intervals of it and as delete_intervals of its "
+    "complement, merged and unmerged (adjacent) interval lists, simplify=False, TableCollection and "
+    "TreeSequence methods, plus six malformed lists; "
+    "[ivs] the same subsets with simplify=True (and the TreeSequence default) against simplify() of "
+    "the simplify=False result; "
+    "[trim] ltrim/rtrim/trim x 6 migration layouts x TableCollection/TreeSequence; "
+    "[ds] every site-id list: all sequences up to a length bound (2-4, duplicates, any order) and "
+    "every larger subset, as list / int32 / int64 array, plus out-of-range ids; "
     "[time] split_edges/decapitate/delete_older x every cutoff in {below all, each node / mutation / "
-    "migration time, midpoints between consecutive ones, above all} x default and non-default "
-    "flags/population/metadata; [ext] extend_haplotypes max_iter in {1, 10}.  One evaluation = one "
-    "call of the real operation compared with the reference; non-trivial = the member has >= 1 edge "
-    "and the reference says the call changes the tables (something is removed, shifted, split or "
-    "extended) or must be refused"
+    "migration time, midpoint between consecutive ones, above all} x default and non-default "
+    "flags/population/metadata (and a JSON node schema variant); "
+    "[ext] extend_haplotypes max_iter in {1, 10}, all sample-flag subsets.  "
+    "One evaluation = one call of the real operation compared with the reference; non-trivial = the "
+    "member has >= 1 edge and the reference says the call changes something (rows removed, shifted, "
+    "split; for extend_haplotypes: the edge table actually changed) or must be refused; cases are "
+    "distinct by construction (member, decoration variant, arguments)"
 )
 ASSUMPTIONS = [
     "reference model mc/ref/edit.py is written from the docstrings of the ten operations",
@@ -41,8 +47,15 @@ ASSUMPTIONS = [
     "spanning several listed intervals is cut",
     "new nodes made by split_edges/decapitate are compared up to renaming (identified by the edge "
     "they split)",
-    "simplify=True is checked differentially: equal to simplify() of the simplify=False result",
+    "simplify=True is checked differentially: equal to simplify() of the simplify=False result "
+    "(simplify itself is C04); edge metadata is absent there because simplify refuses it",
     "ltrim/rtrim/trim with migrations reaching beyond the edges: either refused or a valid result",
+    "extend_haplotypes: documented invariants (only edges and mutations.node change; per position "
+    "only unary non-sample nodes are inserted into existing paths; mutations stay on their lineage "
+    "at their time; sample genotypes by mc/ref/geno.py and simplify() output unchanged); which "
+    "extensions are made is not prescribed; the docstring sentence 'edges whose child node is a "
+    "sample are not modified' is not checked (the property does not state it)",
+    "a mutation exactly as old as an inserted node may sit on either side of it",
 ]
 
 MODES = ("unknown", "known", "known_eq")
